@@ -104,7 +104,7 @@ fn mtime(p: &PathBuf) -> Option<std::time::SystemTime> {
 
 /// case: `op ; op ...` with ops
 ///   new i max igs igd | add i STR | save i | append i | load i | setmax i n
-///   | clear i | put BYTES | rm
+///   | clear i | put BYTES | rm | race i j .. (the sessions append concurrently) | csave i K | cappend i K  (save / append cut off at file size K)
 /// output: `<ticks> | obs ; obs ...`, obs = `R=.. E=.. F=..`
 pub fn run_fhist(inp: &mut dyn BufRead, out: &mut dyn Write) {
     let base = std::env::temp_dir().join(format!("rlh-fhist-{}", std::process::id()));
@@ -151,6 +151,43 @@ pub fn run_fhist(inp: &mut dyn BufRead, out: &mut dyn Write) {
                     let _ = std::fs::remove_file(&path);
                     "unit".into()
                 }
+                "race" => {
+                    // sessions t[1..] append TRULY concurrently: every one of them is started while this thread holds the
+                    // file's lock (flock, what fd-lock takes), so all of them are inside append -- waiting for the lock or
+                    // about to -- when it is released. 40 ms earlier nothing touched the file: the first write gets an
+                    // mtime that differs from every remembered one.
+                    use std::os::unix::io::AsRawFd;
+                    std::thread::sleep(std::time::Duration::from_millis(40));
+                    let ids: Vec<usize> = t[1..].iter().map(|x| x.parse().unwrap()).collect();
+                    let mut taken: Vec<(usize, FileHistory)> = Vec::new();
+                    for i in &ids {
+                        if let Some(k) = sessions.iter().position(|s| s.0 == *i) {
+                            taken.push(sessions.remove(k));
+                        }
+                    }
+                    let lockf = std::fs::File::open(&path).ok();
+                    if let Some(f) = &lockf {
+                        unsafe { libc::flock(f.as_raw_fd(), libc::LOCK_EX) };
+                    }
+                    let p2 = path.clone();
+                    let results: Vec<String> = std::thread::scope(|sc| {
+                        let hs: Vec<_> = taken
+                            .iter_mut()
+                            .map(|(_, h)| {
+                                let p3 = p2.clone();
+                                sc.spawn(move || guarded(|| io(h.append(&p3))).unwrap_or_else(|| "panic".into()))
+                            })
+                            .collect();
+                        std::thread::sleep(std::time::Duration::from_millis(30));
+                        if let Some(f) = &lockf {
+                            unsafe { libc::flock(f.as_raw_fd(), libc::LOCK_UN) };
+                        }
+                        hs.into_iter().map(|h| h.join().unwrap_or_else(|_| "panic".into())).collect()
+                    });
+                    drop(lockf);
+                    sessions.extend(taken);
+                    if results.iter().all(|r| r == "ok") { "ok".into() } else { results.join(",") }
+                }
                 name => {
                     let i: usize = t[1].parse().unwrap();
                     match sessions.iter_mut().find(|s| s.0 == i) {
@@ -161,6 +198,9 @@ pub fn run_fhist(inp: &mut dyn BufRead, out: &mut dyn Write) {
                                     Ok(b) => (if b { "true" } else { "false" }).to_owned(),
                                     Err(_) => "err".into(),
                                 },
+                                // the same write stopped by the kernel once the file would grow beyond K bytes (a crash point)
+                                "csave" => with_fsize_limit(t[2].parse().unwrap(), || io(h.save(&path))),
+                                "cappend" => with_fsize_limit(t[2].parse().unwrap(), || io(h.append(&path))),
                                 "save" => io(h.save(&path)),
                                 "append" => io(h.append(&path)),
                                 "load" => io(h.load(&path)),
@@ -200,6 +240,21 @@ pub fn run_fhist(inp: &mut dyn BufRead, out: &mut dyn Write) {
         writeln!(out, "{} | {}", ticks, obs.join(" ; ")).unwrap();
     }
     let _ = std::fs::remove_dir_all(&base);
+}
+
+/// run `f` with the file-size limit of this process at `k` bytes: a write reaching beyond it is cut short and the next
+/// one fails (EFBIG; SIGXFSZ is ignored), which leaves on disk what a crash at that byte would leave
+fn with_fsize_limit<T>(k: u64, f: impl FnOnce() -> T) -> T {
+    unsafe {
+        libc::signal(libc::SIGXFSZ, libc::SIG_IGN);
+        let mut old: libc::rlimit = std::mem::zeroed();
+        libc::getrlimit(libc::RLIMIT_FSIZE, &mut old);
+        let new = libc::rlimit { rlim_cur: k as libc::rlim_t, rlim_max: old.rlim_max };
+        libc::setrlimit(libc::RLIMIT_FSIZE, &new);
+        let r = f();
+        libc::setrlimit(libc::RLIMIT_FSIZE, &old);
+        r
+    }
 }
 
 fn io(r: rustyline::Result<()>) -> String {
